@@ -58,7 +58,7 @@ TOLERANCES = {
     "totals": "1e-9 relative (same double arithmetic on both sides: a few dozen roundings, erf differences of the Gaussian "
               "bins telescope) + |oracle(CODATA 2018) - oracle(CODATA 2022)| (constants interval)",
     "arguments seen by the rates": "1e-9 relative, for E_int relative to max(E_int, E_beam, 0.5 amu u^2 / e) because "
-                                   "|v_beam - u|^2 cancels",
+                                   "|v_beam - u|^2 cancels; + 1e-290 (subnormal squares of speeds below 1e-145 m/s)",
     "bounds min q_i <= q <= max q_i": "1e-9 relative slack on both ends",
     "second call into the same spectrum doubles it": "1e-12 relative to the largest sample",
     "zero beam / receiver density; repeats (immediate, end of sequence, after another instance was built and used); earlier results after later calls": "exact (bit for bit: the arithmetic is deterministic)",
@@ -587,7 +587,8 @@ def _check_rate_args(ctx, log, family, expected, what):
         want, weighted, escale = expected[key]
         if not weighted:
             continue
-        ctx.close(args[0], want[0], what + "-energy", rtol=1e-9, atol=2e-9 * escale, scale=abs(want[0]),
+        # + 1e-290: |v_beam - u|^2 of speeds below 1e-145 m/s lies in the subnormal range, where relative accuracy is lost
+        ctx.close(args[0], want[0], what + "-energy", rtol=1e-9, atol=2e-9 * escale + 1e-290, scale=abs(want[0]),
                   info="(%s: interaction energy seen by the rate)" % key)
         ctx.close(args[1], want[1], what + "-density", rtol=1e-9, info="(%s: equivalent density sum_j Z_j^2 n_j / Z_i)" % key)
         ctx.close(args[2], want[2], what + "-temperature", rtol=1e-9, info="(%s: target temperature)" % key)
@@ -913,7 +914,7 @@ def _check_cx(case, ctx, ev, b, model, call, out, samples, log, nmeta, is_first)
         for i in range(5):
             w = o18["cx_args"][i]
             if i == 0:
-                ctx.close(a[0], w, "cx-arg-energy", rtol=1e-9, atol=2e-9 * o18["e_scale_r"], scale=abs(w), info="(%s)" % key)
+                ctx.close(a[0], w, "cx-arg-energy", rtol=1e-9, atol=2e-9 * o18["e_scale_r"] + 1e-290, scale=abs(w), info="(%s)" % key)
             elif i == 2 and S.nall != S.nion:     # either reading of 'total ion density' (see ASSUMPTIONS)
                 ctx.check(abs(a[2] - S.nion) <= 1e-9 * S.nion or abs(a[2] - S.nall) <= 1e-9 * S.nall, "cx-arg",
                           lambda: "(%s: total ion density) got %r, ions %r, all species %r" % (key, a[2], S.nion, S.nall))
